@@ -263,7 +263,7 @@ def c08(run):
                        "precedence table): every sequence of up to 3 (thorough: 4) mode-closed lexemes (text, {{ }} blocks incl. "
                        "malformed ones, @if/@elseif/@else/@end, @each, @for, @insert, @component with slots, @slot, illegal "
                        "characters; thorough: the full alphabet at depth 3) optionally ended by one of 26 constructs cut in the "
-                       "middle, and every sequence of up to 3 (thorough: 4) of 13 expression tokens / up to 2 (3) of 24 between "
+                       "middle, and every sequence of up to 3 (thorough: 5) of 14 expression token texts / up to 2 (3) of 27 (incl. '&&', '||', '#') between "
                        "'{{' and '}}' and cut off by the end of the input; TLC proves Termination under fairness without a state "
                        "constraint and checks ProgramOrErrors / PrefixRejected / IllegalRejected / SlotsOwned; every input is "
                        "parsed by the real parser under a watchdog (token types of the expression inputs compared with the "
